@@ -61,6 +61,18 @@ func check(c Case) error {
 		return vk.Harnessf("%s", msg)
 	}
 	s := c.Seq.String()
+	// The same letters are first hashed as the other molecule types (results and errors discarded):
+	// what a call returns must depend on its own arguments only, whatever was hashed before it.
+	if len(s) <= 20000 {
+		for _, typ := range []string{"PROTEIN", "DNA", "RNA"} {
+			if typ != c.Type {
+				_, _ = seqhash.Hash(s, typ, c.Circ, false)
+				if c.DS && typ != "PROTEIN" {
+					_, _ = seqhash.Hash(s, typ, c.Circ, true)
+				}
+			}
+		}
+	}
 	h, err := seqhash.Hash(s, c.Type, c.Circ, c.DS)
 	if c.Reject {
 		if err == nil {
